@@ -200,8 +200,11 @@ class BGPPeering(BGPFactory):
             # Remove the protocol, if it exists
             if pro is self.estab_protocol:
                 self.estab_protocol = None
-                # self.fsm should still be valid and set to ST_IDLE
-                self.fsm.state = bgp_cons.ST_IDLE
+                if self.connector is None or self.connector.state != 'connecting':
+                    # self.fsm should still be valid and set to ST_IDLE
+                    self.fsm.state = bgp_cons.ST_IDLE
+                # else a new attempt was started before this close completed,
+                # the FSM already follows that attempt
 
         if self.fsm.allow_automatic_start:
             self.automatic_start(idle_hold=True)
